@@ -144,6 +144,10 @@ def programs(tier):
     for k, (g1, g2, g3) in enumerate(itertools.product(adj, repeat=3)):
         body = [(g1[0], g1[1], ())] + [(g2[0], g2[1], ())] + ([("h", (1,), ())] if k % 2 else layer(2)) + [(g3[0], g3[1], ())]
         progs.append((n, layer(0) + body + layer(1), (True,) if (tier == "quick" and k % 9) else (False, True)))
+    # explicit swaps that carry the post-selected qubits somewhere else (4 qubits: two qubits moved): the returned rules must sit where the outputs end up
+    for body in ([("cx", (0, 1)), ("swap", (0, 2)), ("swap", (1, 3))], [("swap", (0, 2)), ("swap", (1, 3)), ("cx", (0, 1))], [("cz", (1, 2)), ("swap", (0, 1)), ("swap", (2, 3))],
+                 [("cx", (2, 3)), ("swap", (0, 3)), ("swap", (1, 2))], [("swap", (0, 3)), ("cx", (1, 2)), ("swap", (1, 3)), ("swap", (0, 2))], [("cx", (1, 0)), ("swap", (1, 3)), ("swap", (0, 2)), ("h", (3,))]):
+        progs.append((4, [("h", (0,), ()), ("ry", (2,), (0.7,))] + [(g, q, ()) for g, q in body] + [("t", (1,), ())], (True,) if tier == "quick" else (False, True)))
     # the same entangling gate two and three times in a row, nothing in between (a pair is the identity for these self-inverse gates, three are the gate)
     for g in two + three:
         for reps in (2, 3):
